@@ -1,13 +1,36 @@
 """Property id -> (generator, evaluator)."""
+import traceback
+
 from . import props_a
+
+
+def _guard(prop, ev):
+    """An exception raised by the code under test outside a judged operation (while a map is built, a
+    matcher constructed, a view read) is reported as a violation of the property being checked - the
+    simulator expected an answer - and never as a harness error.  Exceptions that do not pass through the
+    repository are bugs of the harness and propagate."""
+    def wrapper(doc):
+        try:
+            return ev(doc)
+        except Exception as exc:
+            fn = None
+            for fr in traceback.extract_tb(exc.__traceback__):
+                if "leuvenmapmatching" in fr.filename and "/verif/" not in fr.filename:
+                    fn = fr.name
+            if fn is None:
+                raise
+            pid = "C10" if prop == "C10H" else prop
+            v = {"cls": "%s/raises-outside-operation/%s/%s" % (pid, type(exc).__name__, fn), "detail": str(exc)[:200],
+                 "op": -1, "opkind": "?"}
+            return {"violations": [v], "sig": "raised|" + fn, "nontrivial": True, "stats": {"ops": len(doc.get("ops", []))}}
+    wrapper.__name__ = getattr(ev, "__name__", "eval")
+    return wrapper
+
 
 REG = {}
 for _pid in ("C01", "C02", "C03", "C04", "C05", "C06", "C07", "C08", "C09", "C10", "C10H", "C15", "C16", "C17", "C19"):
-    REG[_pid] = (getattr(props_a, "gen_" + _pid), getattr(props_a, "eval_" + _pid))
+    REG[_pid] = (getattr(props_a, "gen_" + _pid), _guard(_pid, getattr(props_a, "eval_" + _pid)))
 
-try:
-    from . import props_b
-    for _pid in ("C11", "C12", "C18"):
-        REG[_pid] = (getattr(props_b, "gen_" + _pid), getattr(props_b, "eval_" + _pid))
-except ImportError:
-    pass
+from . import props_b  # noqa: E402
+for _pid in ("C11", "C12", "C18"):
+    REG[_pid] = (getattr(props_b, "gen_" + _pid), _guard(_pid, getattr(props_b, "eval_" + _pid)))
